@@ -66,6 +66,8 @@ def finding_key(req, obs, detail):
               (pa[0] == "s" and pb[0] == "v" and pb[2] == "1" and pa[1] == pb[1])
         if (one or la == lb) and "c" not in ma:
             return "rvalue passed to out/inout parameter: T <-> T1 or modifier-only conversion of an lvalue argument"
+    if re.match(r"FAIL:inexact default argument: requires (\S+) but receives (\S+)", d):
+        return "default argument is neither checked against nor converted to the parameter type"
     m = re.match(r"FAIL:(assignment|increment|out/inout argument) writes to a const object per the declarations: (\S+)$", d)
     if m:
         path = m.group(2)
